@@ -192,7 +192,12 @@ package check
 //@   props C15 C01
 //@   requires repeatTypeList != nil && strMap != nil
 //@   loop range:createTypeList.List exits-early-only-if [every-definition-of-the-class-is-examined] false
-//@   loop range:createTypeList.List step [each-definition-is-tested-for-a-repeat-once] hits("IsRepeateTypeInfo#1") == prev(hits("IsRepeateTypeInfo#1")) + 1
+// ... also when the current file declares the class itself: a class may be split over several blocks and files, and
+// every block contributes its fields (until the fix the walk stopped at the current file's best definition)
+//@   ensures[the-other-definitions-of-the-name-are-examined-wherever-the-first-was-found] lastresult("getAnnotateFile#0") != nil
+//@        && !(hits("IsRepeateTypeInfo#0") == 1 && lastresult("IsRepeateTypeInfo#0")) && has(a.createTypeMap, strName) && len(a.createTypeMap[strName].List) > 0
+//@        ==> hits("IsRepeateTypeInfo#1") >= 1
+//@   loop range:createTypeList.List invariant hits("IsRepeateTypeInfo#1") >= rangeindex + 1
 // the visited list is what stops the walk on inheritance cycles: it must record exactly the definition just examined
 //@   at call append#0 before assert[C15,C01,visited-list-records-the-definition-just-examined] arg0 == repeatTypeList.List && arg1[0] == createBestType && createBestType != nil
 //@   at call append#4 before assert[C15,C01,visited-list-records-the-definition-just-examined] arg0 == repeatTypeList.List && arg1[0] == oneCreate
